@@ -251,18 +251,20 @@ fn read_symbol_prefix_lemma() {
 // So "parse establishes wf_slot for every slot, injectively, sum(D) = 4096" is UNVERIFIED for binary, flat
 // and compressed headers.
 // ------------------------------------------------------------------------------------------------
-static mut SCRIPT: [u32; 6] = [0; 6];
-static mut SCRIPT_POS: usize = 0;
+// unique non-zero initial values: Kani 0.68 may give a `static mut` the storage of an equal-bytes constant
+const SCRIPT_POS_BASE: usize = 0x5343_5250_4f53_0000;
+static mut SCRIPT: [u32; 6] = [0x5c52_0001, 0x5c52_0002, 0x5c52_0003, 0x5c52_0004, 0x5c52_0005, 0x5c52_0006];
+static mut SCRIPT_POS: usize = SCRIPT_POS_BASE;
 fn script_read_bool<'a>(_bs: &mut Bitstream<'a>) -> jxl_bitstream::BitstreamResult<bool> where 'a: 'a {
     unsafe {
-        let v = SCRIPT[SCRIPT_POS];
+        let v = SCRIPT[SCRIPT_POS - SCRIPT_POS_BASE];
         SCRIPT_POS += 1;
         Ok(v & 1 != 0)
     }
 }
 fn script_read_bits<'a>(_bs: &mut Bitstream<'a>, n: usize) -> jxl_bitstream::BitstreamResult<u32> where 'a: 'a {
     unsafe {
-        let v = SCRIPT[SCRIPT_POS];
+        let v = SCRIPT[SCRIPT_POS - SCRIPT_POS_BASE];
         SCRIPT_POS += 1;
         Ok(if n >= 32 { v } else { v & ((1u32 << n) - 1) })
     }
@@ -274,7 +276,7 @@ fn parse_one_symbol(las: u32, val: u32) {
     let n = if val == 0 { 0 } else { 31 - val.leading_zeros() };
     unsafe {
         SCRIPT = if val == 0 { [1, 0, 0, 0, 0, 0] } else { [1, 0, 1, n, val - (1 << n), 0] };
-        SCRIPT_POS = 0;
+        SCRIPT_POS = SCRIPT_POS_BASE;
     }
     let data = [0u8; 1];
     let mut bs = Bitstream::new(&data);
@@ -283,7 +285,7 @@ fn parse_one_symbol(las: u32, val: u32) {
     match &r {
         Err(_) => assert!(false, "[C04] a one-symbol header inside the alphabet is accepted"),
         Ok(h) => {
-            assert!(unsafe { SCRIPT_POS } == fields, "[C04] exactly the header fields are read");
+            assert!(unsafe { SCRIPT_POS } - SCRIPT_POS_BASE == fields, "[C04] exactly the header fields are read");
             assert!(h.single_symbol() == Some(val), "[C04] single_symbol() is the transmitted symbol");
             assert!(wf_table(h) && h.buckets.len() == size && h.log_bucket_size == 12 - las, "[C02,C04] parse establishes wf_table");
             let k: usize = kani::any();
